@@ -44,8 +44,10 @@ pub broadcast axiom fn r_mul_unit_r(a: f64, b: f64) ensures R(b) == 1real ==> R(
 pub broadcast axiom fn r_mul_unit_l(a: f64, b: f64) ensures R(a) == 1real ==> R(#[trigger] a.mul_spec(b)) == R(b), R(a) == 0real - 1real ==> R(a.mul_spec(b)) == 0real - R(b);
 pub broadcast axiom fn r_mul_sign(a: f64, b: f64) ensures R(a) >= 0real && R(b) >= 0real ==> R(#[trigger] a.mul_spec(b)) >= 0real,
     R(a) > 0real && R(b) > 0real ==> R(a.mul_spec(b)) > 0real;
-pub broadcast axiom fn r_mul_le(a: f64, b: f64) ensures R(a) >= 0real && 0real <= R(b) <= 1real ==> R(#[trigger] a.mul_spec(b)) <= R(a),
-    R(b) >= 0real && 0real <= R(a) <= 1real ==> R(a.mul_spec(b)) <= R(b);
+pub broadcast axiom fn r_mul_le(a: f64, b: f64) ensures 0real <= R(b) <= 1real ==> rabs(R(#[trigger] a.mul_spec(b))) <= rabs(R(a)),
+    0real <= R(a) <= 1real ==> rabs(R(a.mul_spec(b))) <= rabs(R(b));
+pub broadcast axiom fn r_mul_sign2(a: f64, b: f64) ensures R(a) <= 0real && R(b) >= 0real ==> R(#[trigger] a.mul_spec(b)) <= 0real,
+    R(a) >= 0real && R(b) <= 0real ==> R(a.mul_spec(b)) <= 0real, R(a) < 0real && R(b) > 0real ==> R(a.mul_spec(b)) < 0real, R(a) > 0real && R(b) < 0real ==> R(a.mul_spec(b)) < 0real;
 pub broadcast axiom fn r_div_pos(a: f64, b: f64) ensures
     R(b) > 0real ==> (R(#[trigger] a.div_spec(b)) > 0real <==> R(a) > 0real) && (R(a.div_spec(b)) < 0real <==> R(a) < 0real),
     R(b) >= 1real ==> rabs(R(a.div_spec(b))) <= rabs(R(a)),
@@ -65,8 +67,10 @@ pub broadcast axiom fn r_neg(a: f64) ensures R(#[trigger] s_neg(a)) == 0real - R
 pub broadcast axiom fn r_powf(a: f64, p: f64) ensures R(a) > 0real ==> R(#[trigger] s_powf(a, p)) > 0real, R(a) >= 1real && R(p) >= 0real ==> R(s_powf(a, p)) >= 1real;
 pub broadcast axiom fn r_sqrt(a: f64) ensures R(#[trigger] s_sqrt(a)) >= 0real;
 pub broadcast axiom fn r_nan(a: f64) ensures !(#[trigger] s_is_nan(a));
+#[verifier::allow(broadcast_without_trigger)]
+pub broadcast axiom fn r_epsilon() ensures R(EPSILON_s()) > 0real;
 pub broadcast group f64_ops { f64_add_req, f64_sub_req, f64_mul_req, f64_div_req, f64_deterministic,
-    r_add, r_sub, r_mul, r_mul_unit_r, r_mul_unit_l, r_mul_sign, r_mul_le, r_div_pos, r_div_special, r_mul_zero, r_div_one, r_cmp, r_eq, r_signum, r_abs, r_min, r_max, r_neg, r_powf, r_sqrt, r_nan }
+    r_add, r_sub, r_mul, r_mul_unit_r, r_mul_unit_l, r_mul_sign, r_mul_sign2, r_mul_le, r_div_pos, r_div_special, r_mul_zero, r_div_one, r_cmp, r_eq, r_signum, r_abs, r_min, r_max, r_neg, r_powf, r_sqrt, r_nan, r_epsilon }
 }
 pub assume_specification [f64::signum] (x: f64) -> (r: f64) ensures r == s_signum(x);
 pub assume_specification [f64::abs] (x: f64) -> (r: f64) ensures r == s_abs(x);
